@@ -15,7 +15,7 @@ class GuestDisk:
     """size + unit map -> guest-visible bytes.  units: list of HOLE/ZERO/DATA (or per-sector lists via `sector_map`)."""
 
     def __init__(self, size: int, unit: int, units: list, layer: int = 1, parent: "GuestDisk | None" = None,
-                 sector_map: dict | None = None, sector_size: int = SECTOR):
+                 sector_map: dict | None = None, sector_size: int = SECTOR, unit_layers: dict | None = None):
         self.size = size
         self.unit = unit
         self.units = units
@@ -23,6 +23,7 @@ class GuestDisk:
         self.parent = parent
         self.sector_map = sector_map or {}  # unit index -> list of HOLE/ZERO/DATA per sector (sub-unit granularity)
         self.sector_size = sector_size
+        self.unit_layers = unit_layers or {}  # unit index -> pattern layer of that unit's data (default self.layer)
         self._cache = None
 
     def _state_at(self, off: int):
@@ -48,7 +49,7 @@ class GuestDisk:
             stop = min(end, (pos // gran + 1) * gran)
             ln = stop - pos
             if st == DATA:
-                out.append(pattern.span(self.layer, pos, ln))
+                out.append(pattern.span(self.unit_layers.get(pos // self.unit, self.layer), pos, ln))
             elif st == ZERO:
                 out.append(b"\0" * ln)
             else:
